@@ -2,7 +2,7 @@
     Spec/Grammar.v — whatever it accepts is the flattening of a syntax tree of
     the grammar, and the tree it returns is that syntax tree's abstract tree. *)
 From Coq Require Import ZifyBool.
-From JP Require Import Base Value Lexer Parser Spec.Grammar.
+From JP Require Import Base Value Lexer Parser Spec.Grammar Spec.Prec.
 
 Definition toks (st : pst) : list token := map snd (pq st).
 
@@ -145,43 +145,45 @@ Section Sound.
     (dot_start (peek st 0) = true -> dot_ok (head c) = true) /\ (brk_start st = true -> brk_ok (head c) = true).
 
   Definition P_expr f := forall rbp st t st', expr' f rbp st = Ok (t, st') ->
-    exists c, toks st = flat c ++ toks st' /\ erase c = t /\ wf c /\ start_ok st c.
-  Definition P_loop f := forall rbp lft st t st' cl, erase cl = lft -> wf cl -> expr_loop' f rbp lft st = Ok (t, st') ->
-    exists c w, toks st = w ++ toks st' /\ flat c = flat cl ++ w /\ erase c = t /\ wf c /\ head c = head cl.
+    exists c, toks st = flat c ++ toks st' /\ erase c = t /\ wf c /\ start_ok st c /\ prec L rbp c.
+  Definition P_loop f := forall rbp lft st t st' cl, erase cl = lft -> wf cl -> prec L rbp cl -> expr_loop' f rbp lft st = Ok (t, st') ->
+    exists c w, toks st = w ++ toks st' /\ flat c = flat cl ++ w /\ erase c = t /\ wf c /\ head c = head cl /\ prec L rbp c.
   Definition P_nud f := forall st t st', nud' f st = Ok (t, st') ->
-    exists c, toks st = flat c ++ toks st' /\ erase c = t /\ wf c /\ start_ok st c.
+    exists c, toks st = flat c ++ toks st' /\ erase c = t /\ wf c /\ start_ok st c /\ (forall rbp, prec L rbp c).
   Definition P_kvps f := forall acc st t st', parse_kvps' f acc st = Ok (t, st') ->
     exists items, items <> [] /\ toks st = hash_items items ++ toks st' /\ t = AMultiHash (rev acc ++ map erase_kv items) /\
-                  Forall (fun kv : bool * str * cst => wf (snd kv)) items.
+                  Forall (fun kv : bool * str * cst => wf (snd kv)) items /\ Forall (fun kv : bool * str * cst => prec L 0 (snd kv)) items.
   Definition P_kvp f := forall st k e st', parse_kvp' f st = Ok ((k, e), st') ->
-    exists q x, toks st = key_tok q k :: TColon :: flat x ++ toks st' /\ erase x = e /\ wf x.
-  Definition P_led f := forall lft st t st' cl, erase cl = lft -> wf cl -> led' f lft st = Ok (t, st') ->
-    exists c w, toks st = w ++ toks st' /\ flat c = flat cl ++ w /\ erase c = t /\ wf c /\ head c = head cl.
+    exists q x, toks st = key_tok q k :: TColon :: flat x ++ toks st' /\ erase x = e /\ wf x /\ prec L 0 x.
+  Definition P_led f := forall lft st t st' cl, erase cl = lft -> wf cl -> inner L cl -> led' f lft st = Ok (t, st') ->
+    exists c w, toks st = w ++ toks st' /\ flat c = flat cl ++ w /\ erase c = t /\ wf c /\ head c = head cl /\
+                spine_ops c = spine_ops cl ++ [peek st 0] /\ inner L c.
   Definition P_filter f := forall lhs st t st', parse_filter' f lhs st = Ok (t, st') ->
-    exists p k, toks st = flat p ++ TRbracket :: flatk k ++ toks st' /\ t = AProjection lhs (ACondition (erase p) (erasek k)) /\ wf p /\ wfk k.
+    exists p k, toks st = flat p ++ TRbracket :: flatk k ++ toks st' /\ t = AProjection lhs (ACondition (erase p) (erasek k)) /\ wf p /\ wfk k /\
+                prec L 0 p /\ innerk L (L TFilter) k.
   Definition P_flatten f := forall lhs st t st', parse_flatten' f lhs st = Ok (t, st') ->
-    exists k, toks st = flatk k ++ toks st' /\ t = AProjection (AFlatten lhs) (erasek k) /\ wfk k.
+    exists k, toks st = flatk k ++ toks st' /\ t = AProjection (AFlatten lhs) (erasek k) /\ wfk k /\ innerk L (L TFlatten) k.
   Definition P_cmp f := forall c lhs st t st', parse_comparator' f c lhs st = Ok (t, st') ->
-    exists r, toks st = flat r ++ toks st' /\ t = AComparison c lhs (erase r) /\ wf r.
+    exists r, toks st = flat r ++ toks st' /\ t = AComparison c lhs (erase r) /\ wf r /\ prec L (L TEq) r.
   Definition P_dot f := forall bp st t st', parse_dot' f bp st = Ok (t, st') ->
-    exists d, toks st = flat d ++ toks st' /\ erase d = t /\ wf d /\ dot_ok (head d) = true.
+    exists d, toks st = flat d ++ toks st' /\ erase d = t /\ wf d /\ dot_ok (head d) = true /\ prec L bp d.
   Definition P_prhs f := forall bp st t st', projection_rhs' f bp st = Ok (t, st') ->
-    exists k, toks st = flatk k ++ toks st' /\ erasek k = t /\ wfk k.
+    exists k, toks st = flatk k ++ toks st' /\ erasek k = t /\ wfk k /\ innerk L bp k.
   Definition P_wi f := forall lhs st t st', parse_wildcard_index' f lhs st = Ok (t, st') ->
-    exists k, toks st = TRbracket :: flatk k ++ toks st' /\ t = AProjection lhs (erasek k) /\ wfk k.
+    exists k, toks st = TRbracket :: flatk k ++ toks st' /\ t = AProjection lhs (erasek k) /\ wfk k /\ innerk L (L TStar) k.
   Definition P_wv f := forall lhs st t st', parse_wildcard_values' f lhs st = Ok (t, st') ->
-    exists k, toks st = flatk k ++ toks st' /\ t = AProjection (AObjectValues lhs) (erasek k) /\ wfk k.
+    exists k, toks st = flatk k ++ toks st' /\ t = AProjection (AObjectValues lhs) (erasek k) /\ wfk k /\ innerk L (L TStar) k.
   Definition P_index f := forall st t st', parse_index' f st = Ok (t, st') ->
     (exists n, toks st = TNumber n :: TRbracket :: toks st' /\ t = AIndex n) \/
-    (exists off sl k, toks st = slice_toks sl ++ TRbracket :: flatk k ++ toks st' /\ t = AProjection (slice_ast off sl) (erasek k) /\ wfk k).
+    (exists off sl k, toks st = slice_toks sl ++ TRbracket :: flatk k ++ toks st' /\ t = AProjection (slice_ast off sl) (erasek k) /\ wfk k /\ innerk L (L TStar) k).
   Definition P_mlist f := forall st t st', parse_multi_list' f st = Ok (t, st') ->
-    exists e es, toks st = flat e ++ mlist_tail es ++ toks st' /\ t = AMultiList (erase e :: map erase es) /\ wf e /\ Forall wf es.
+    exists e es, toks st = flat e ++ mlist_tail es ++ toks st' /\ t = AMultiList (erase e :: map erase es) /\ wf e /\ Forall wf es /\ prec L 0 e /\ Forall (prec L 0) es.
   Definition P_list f := forall c acc st l st', parse_list' f c acc st = Ok (l, st') ->
     exists items, toks st = glist c items ++ toks st' /\ l = rev acc ++ map erase_arg items /\
                   (c = CloseBracket -> Forall (fun a => fst a = false) items) /\
                   (is_closing c (peek st 0) = false -> items <> []) /\
                   (is_closing c (peek st 0) = true -> items = []) /\
-                  Forall (fun a : bool * cst => wf (snd a)) items.
+                  Forall (fun a : bool * cst => wf (snd a)) items /\ Forall (arg_prec L) items.
 
   Definition all_sound f :=
     P_expr f /\ P_loop f /\ P_nud f /\ P_kvps f /\ P_kvp f /\ P_led f /\ P_filter f /\ P_flatten f /\ P_cmp f /\
@@ -202,55 +204,58 @@ Section Sound.
   Lemma sound_expr f : all_sound f -> P_expr (S f).
   Proof.
     intros (_ & Hloop & Hnud & _). intros rbp st t st' H. cbn [expr] in H. refold_in H.
-    run H l st1 En. apply Hnud in En as (cl & Hcl & Hel & Hwl & Hsl).
-    apply (Hloop rbp l st1 t st' cl Hel Hwl) in H as (c & w & Hw & Hf & He & Hwc & Hh).
-    exists c. split; [rewrite Hcl, Hw, Hf, app_assoc; reflexivity|]. split; [exact He|]. split; [exact Hwc|].
+    run H l st1 En. apply Hnud in En as (cl & Hcl & Hel & Hwl & Hsl & Hpl).
+    apply (Hloop rbp l st1 t st' cl Hel Hwl (Hpl rbp)) in H as (c & w & Hw & Hf & He & Hwc & Hh & Hpc).
+    exists c. split; [rewrite Hcl, Hw, Hf, app_assoc; reflexivity|]. split; [exact He|]. split; [exact Hwc|]. split; [|exact Hpc].
     unfold start_ok in *. rewrite Hh. exact Hsl.
   Qed.
 
   Lemma sound_loop f : all_sound f -> P_loop (S f).
   Proof.
-    intros (_ & Hloop & _ & _ & _ & Hled & _). intros rbp lft st t st' cl Hcl Hwl H. cbn [expr_loop] in H. refold_in H.
-    destruct (rbp <? L (peek st 0)).
-    - run H l2 st1 El. apply (Hled lft st l2 st1 cl Hcl Hwl) in El as (c1 & w1 & Hw1 & Hf1 & He1 & Hwc1 & Hh1).
-      apply (Hloop rbp l2 st1 t st' c1 He1 Hwc1) in H as (c & w2 & Hw2 & Hf2 & He2 & Hwc2 & Hh2).
+    intros (_ & Hloop & _ & _ & _ & Hled & _). intros rbp lft st t st' cl Hcl Hwl Hpl H. cbn [expr_loop] in H. refold_in H.
+    destruct (rbp <? L (peek st 0)) eqn:Elt.
+    - run H l2 st1 El. destruct Hpl as [Htl Hil].
+      apply (Hled lft st l2 st1 cl Hcl Hwl Hil) in El as (c1 & w1 & Hw1 & Hf1 & He1 & Hwc1 & Hh1 & Hsp1 & Hi1).
+      assert (Hp1 : prec L rbp c1).
+      { split; [|exact Hi1]. unfold tighter. rewrite Hsp1. apply Forall_app. split; [exact Htl|]. constructor; [apply Z.ltb_lt; exact Elt|constructor]. }
+      apply (Hloop rbp l2 st1 t st' c1 He1 Hwc1 Hp1) in H as (c & w2 & Hw2 & Hf2 & He2 & Hwc2 & Hh2 & Hp2).
       exists c, (w1 ++ w2). split; [rewrite Hw1, Hw2, app_assoc; reflexivity|]. split; [rewrite Hf2, Hf1, app_assoc; reflexivity|].
-      split; [exact He2|]. split; [exact Hwc2|]. now rewrite Hh2, Hh1.
+      split; [exact He2|]. split; [exact Hwc2|]. split; [now rewrite Hh2, Hh1|exact Hp2].
     - injection H as <- <-. exists cl, []. split; [reflexivity|]. split; [now rewrite app_nil_r|]. auto.
   Qed.
 
   Lemma sound_filter f : all_sound f -> P_filter (S f).
   Proof.
     intros (Hexpr & _ & _ & _ & _ & _ & _ & _ & _ & _ & Hprhs & _). intros lhs st t st' H. cbn [parse_filter] in H. refold_in H.
-    run H cond st1 Ee. apply Hexpr in Ee as (p & Hp & Hep & Hwp & _). adv_in H. destruct (peek st1 0) eqn:Ep; dead. use_peek.
-    run H rhs st3 Er. apply Hprhs in Er as (k & Hk & Hek & Hwk). injection H as <- <-.
+    run H cond st1 Ee. apply Hexpr in Ee as (p & Hp & Hep & Hwp & _ & Hpp). adv_in H. destruct (peek st1 0) eqn:Ep; dead. use_peek.
+    run H rhs st3 Er. apply Hprhs in Er as (k & Hk & Hek & Hwk & Hik). injection H as <- <-.
     exists p, k. split; [rewrite Hp, Ha, Hk; reflexivity|]. split; [now rewrite Hep, Hek|auto].
   Qed.
 
   Lemma sound_flatten f : all_sound f -> P_flatten (S f).
   Proof.
     intros (_ & _ & _ & _ & _ & _ & _ & _ & _ & _ & Hprhs & _). intros lhs st t st' H. cbn [parse_flatten] in H. refold_in H.
-    run H rhs st1 Er. apply Hprhs in Er as (k & Hk & Hek & Hwk). injection H as <- <-. exists k. split; [exact Hk|]. split; [now rewrite Hek|exact Hwk].
+    run H rhs st1 Er. apply Hprhs in Er as (k & Hk & Hek & Hwk & Hik). injection H as <- <-. exists k. split; [exact Hk|]. split; [now rewrite Hek|auto].
   Qed.
 
   Lemma sound_cmp f : all_sound f -> P_cmp (S f).
   Proof.
     intros (Hexpr & _). intros c lhs st t st' H. cbn [parse_comparator] in H. refold_in H.
-    run H rhs st1 Er. apply Hexpr in Er as (r & Hr & Her & Hwr & _). injection H as <- <-. exists r. split; [exact Hr|]. split; [now rewrite Her|exact Hwr].
+    run H rhs st1 Er. apply Hexpr in Er as (r & Hr & Her & Hwr & _ & Hpr). injection H as <- <-. exists r. split; [exact Hr|]. split; [now rewrite Her|auto].
   Qed.
 
   Lemma sound_wi f : all_sound f -> P_wi (S f).
   Proof.
     intros (_ & _ & _ & _ & _ & _ & _ & _ & _ & _ & Hprhs & _). intros lhs st t st' H. cbn [parse_wildcard_index] in H. refold_in H.
     adv_in H. destruct (peek st 0) eqn:Ep; dead. use_peek.
-    run H rhs st2 Er. apply Hprhs in Er as (k & Hk & Hek & Hwk). injection H as <- <-. exists k.
-    split; [rewrite Ha, Hk; reflexivity|]. split; [now rewrite Hek|exact Hwk].
+    run H rhs st2 Er. apply Hprhs in Er as (k & Hk & Hek & Hwk & Hik). injection H as <- <-. exists k.
+    split; [rewrite Ha, Hk; reflexivity|]. split; [now rewrite Hek|auto].
   Qed.
 
   Lemma sound_wv f : all_sound f -> P_wv (S f).
   Proof.
     intros (_ & _ & _ & _ & _ & _ & _ & _ & _ & _ & Hprhs & _). intros lhs st t st' H. cbn [parse_wildcard_values] in H. refold_in H.
-    run H rhs st1 Er. apply Hprhs in Er as (k & Hk & Hek & Hwk). injection H as <- <-. exists k. split; [exact Hk|]. split; [now rewrite Hek|exact Hwk].
+    run H rhs st1 Er. apply Hprhs in Er as (k & Hk & Hek & Hwk & Hik). injection H as <- <-. exists k. split; [exact Hk|]. split; [now rewrite Hek|auto].
   Qed.
 
   Lemma sound_kvp f : all_sound f -> P_kvp (S f).
@@ -258,29 +263,31 @@ Section Sound.
     intros (Hexpr & _). intros st k e st' H. cbn [parse_kvp] in H. refold_in H.
     adv_in H. destruct (peek st 0) eqn:Ep; dead; use_peek.
     - destruct (tok_is_colon (peek p 0)) eqn:Ec; dead. adv_in H. use_peek.
-      run H e1 st3 Ee. apply Hexpr in Ee as (x & Hx & Hex & Hwx & _). injection H as <- <- <-.
+      run H e1 st3 Ee. apply Hexpr in Ee as (x & Hx & Hex & Hwx & _ & Hpx). injection H as <- <- <-.
       exists false, x. split; [rewrite Ha, Ha0, Hx; reflexivity|]. auto.
     - destruct (tok_is_colon (peek p 0)) eqn:Ec; dead. adv_in H. use_peek.
-      run H e1 st3 Ee. apply Hexpr in Ee as (x & Hx & Hex & Hwx & _). injection H as <- <- <-.
+      run H e1 st3 Ee. apply Hexpr in Ee as (x & Hx & Hex & Hwx & _ & Hpx). injection H as <- <- <-.
       exists true, x. split; [rewrite Ha, Ha0, Hx; reflexivity|]. auto.
   Qed.
 
   Lemma sound_kvps f : all_sound f -> P_kvps (S f).
   Proof.
     intros (_ & _ & _ & Hkvps & Hkvp & _). intros acc st t st' H. cbn [parse_kvps] in H. refold_in H.
-    run H kv st1 Ek. destruct kv as [k e]. apply Hkvp in Ek as (q & x & Hx & Hex & Hwx). adv_in H.
+    run H kv st1 Ek. destruct kv as [k e]. apply Hkvp in Ek as (q & x & Hx & Hex & Hwx & Hpx). adv_in H.
     destruct (peek st1 0) eqn:Ep; dead; use_peek.
     - (* comma *)
-      apply Hkvps in H as (items & Hne & Hi & Ht & Hwi). destruct items as [|[[q2 k2] x2] r]; [contradiction|].
-      exists ((q, k, x) :: (q2, k2, x2) :: r). split; [discriminate|]. split; [|split].
+      apply Hkvps in H as (items & Hne & Hi & Ht & Hwi & Hpi). destruct items as [|[[q2 k2] x2] r]; [contradiction|].
+      exists ((q, k, x) :: (q2, k2, x2) :: r). split; [discriminate|]. split; [|split; [|split]].
       + rewrite Hx, Ha, Hi. cbn [hash_items mhash_tail]. listeq.
       + rewrite Ht. cbn [rev map]. rewrite <- app_assoc. cbn [app]. unfold erase_kv at 3. cbn [fst snd]. now rewrite Hex.
       + constructor; [exact Hwx|exact Hwi].
+      + constructor; [exact Hpx|exact Hpi].
     - (* closing brace *)
-      injection H as <- <-. exists [(q, k, x)]. split; [discriminate|]. split; [|split].
+      injection H as <- <-. exists [(q, k, x)]. split; [discriminate|]. split; [|split; [|split]].
       + rewrite Hx, Ha. cbn [hash_items mhash_tail]. listeq.
       + cbn [rev map]. unfold erase_kv. cbn [fst snd]. now rewrite Hex.
       + constructor; [exact Hwx|constructor].
+      + constructor; [exact Hpx|constructor].
   Qed.
 
   Lemma close_not_eof c : close_tok c <> TEof. Proof. destruct c; discriminate. Qed.
@@ -290,45 +297,50 @@ Section Sound.
     intros (Hexpr & _ & _ & _ & _ & _ & _ & _ & _ & _ & _ & _ & _ & _ & _ & Hlist). intros c acc st l st' H.
     cbn [parse_list] in H. refold_in H. destruct (is_closing c (peek st 0)) eqn:Ec.
     - adv_in H. injection H as <- <-. pose proof Ec as Ec'. apply is_closing_true in Ec'. rewrite Ec' in Ha. specialize (Ha (close_not_eof c)).
-      exists []. split; [rewrite Ha; reflexivity|]. split; [now rewrite app_nil_r|]. split; [intros _; constructor|]. split; [discriminate|]. split; [reflexivity|constructor].
+      exists []. split; [rewrite Ha; reflexivity|]. split; [now rewrite app_nil_r|]. split; [intros _; constructor|]. split; [discriminate|]. split; [reflexivity|]. split; constructor.
     - run H e st1 Ee.
-      assert (Hel : exists a, toks st = flat_arg a ++ toks st1 /\ erase_arg a = e /\ (c = CloseBracket -> fst a = false) /\ wf (snd a)).
+      assert (Hel : exists a, toks st = flat_arg a ++ toks st1 /\ erase_arg a = e /\ (c = CloseBracket -> fst a = false) /\ wf (snd a) /\ arg_prec L a).
       { destruct c.
-        - apply Hexpr in Ee as (x & Hx & Hex & Hwx & _). exists (false, x). unfold flat_arg, erase_arg. cbn [fst snd app]. auto.
+        - apply Hexpr in Ee as (x & Hx & Hex & Hwx & _ & Hpx). exists (false, x). unfold flat_arg, erase_arg, arg_prec. cbn [fst snd app]. auto.
         - destruct (peek st 0) eqn:Ep;
-            try (apply Hexpr in Ee as (x & Hx & Hex & Hwx & _); exists (false, x); unfold flat_arg, erase_arg; cbn [fst snd app];
-                 split; [exact Hx|split; [exact Hex|split; [discriminate|exact Hwx]]]).
-          adv_in Ee. rewrite Ep in Ha. specialize (Ha ltac:(discriminate)). run Ee rhs st0 Er. apply Hexpr in Er as (x & Hx & Hex & Hwx & _).
-          injection Ee as <- <-. exists (true, x). unfold flat_arg, erase_arg. cbn [fst snd]. split; [rewrite Ha, Hx; reflexivity|].
-          split; [now rewrite Hex|]. split; [discriminate|exact Hwx]. }
-      destruct Hel as (a & Hta & Hea & Hfa & Hwa).
+            try (apply Hexpr in Ee as (x & Hx & Hex & Hwx & _ & Hpx); exists (false, x); unfold flat_arg, erase_arg, arg_prec; cbn [fst snd app];
+                 split; [exact Hx|split; [exact Hex|split; [discriminate|split; [exact Hwx|exact Hpx]]]]).
+          adv_in Ee. rewrite Ep in Ha. specialize (Ha ltac:(discriminate)). run Ee rhs st0 Er. apply Hexpr in Er as (x & Hx & Hex & Hwx & _ & Hpx).
+          injection Ee as <- <-. exists (true, x). unfold flat_arg, erase_arg, arg_prec. cbn [fst snd]. split; [rewrite Ha, Hx; reflexivity|].
+          split; [now rewrite Hex|]. split; [discriminate|]. split; [exact Hwx|exact Hpx]. }
+      destruct Hel as (a & Hta & Hea & Hfa & Hwa & Hpa).
       destruct (tok_is_comma (peek st1 0)) eqn:Ecm.
       + adv_in H. use_peek. destruct (is_closing c (peek p 0)) eqn:Ec2; dead.
-        apply Hlist in H as (items & Hi & Hl & Hf & Hne & _ & Hwi). specialize (Hne Ec2). destruct items as [|a2 r]; [contradiction|].
+        apply Hlist in H as (items & Hi & Hl & Hf & Hne & _ & Hwi & Hpi). specialize (Hne Ec2). destruct items as [|a2 r]; [contradiction|].
         exists (a :: a2 :: r). split; [rewrite Hta, Ha, Hi; cbn [glist gtail]; listeq|].
         split; [rewrite Hl; cbn [rev map]; rewrite <- app_assoc; cbn [app]; now rewrite Hea|].
-        split; [intros E; constructor; [exact (Hfa E)|exact (Hf E)]|]. split; [discriminate|]. split; [intros E; congruence|constructor; assumption].
+        split; [intros E; constructor; [exact (Hfa E)|exact (Hf E)]|]. split; [discriminate|]. split; [intros E; congruence|]. split; constructor; assumption.
       + destruct (is_closing c (peek st1 0)) eqn:Ec2; dead.
-        apply Hlist in H as (items & Hi & Hl & Hf & _ & Hnil & _). specialize (Hnil Ec2). subst items.
+        apply Hlist in H as (items & Hi & Hl & Hf & _ & Hnil & _ & _). specialize (Hnil Ec2). subst items.
         exists [a]. split; [rewrite Hta, Hi; cbn [glist gtail]; listeq|].
         split; [rewrite Hl; cbn [rev map]; rewrite <- app_assoc; cbn [app]; now rewrite Hea|].
-        split; [intros E; constructor; [exact (Hfa E)|constructor]|]. split; [discriminate|]. split; [intros E; congruence|constructor; [exact Hwa|constructor]].
+        split; [intros E; constructor; [exact (Hfa E)|constructor]|]. split; [discriminate|]. split; [intros E; congruence|]. split; (constructor; [assumption|constructor]).
   Qed.
 
   Lemma sound_mlist f : all_sound f -> P_mlist (S f).
   Proof.
     intros (_ & _ & _ & _ & _ & _ & _ & _ & _ & _ & _ & _ & _ & _ & _ & Hlist). intros st t st' H.
     cbn [parse_multi_list] in H. refold_in H. destruct (tok_is_rbracket (peek st 0)) eqn:Er; dead.
-    run H es st1 El. injection H as <- <-. apply Hlist in El as (items & Hi & Hl & Hf & Hne & _ & Hwi).
+    run H es st1 El. injection H as <- <-. apply Hlist in El as (items & Hi & Hl & Hf & Hne & _ & Hwi & Hpi).
     assert (Hnc : is_closing CloseBracket (peek st 0) = false) by exact Er. specialize (Hne Hnc). specialize (Hf eq_refl).
     destruct items as [|[b e] r]; [contradiction|]. pose proof (Forall_inv Hf) as Hb. pose proof (Forall_inv_tail Hf) as Hr. cbn [fst] in Hb. subst b.
     assert (Hmap : r = map (pair false) (map snd r)).
     { clear -Hr. induction Hr as [|[b x] r Hb Hr IH]; [reflexivity|]. cbn [fst] in Hb. subst b. cbn [map snd]. now rewrite <- IH. }
-    exists e, (map snd r). split; [|split; [|split]].
+    assert (Hp0 : forall l, Forall (fun a : bool * cst => fst a = false) l -> Forall (arg_prec L) l -> Forall (prec L 0) (map snd l)).
+    { intros l Hf0 Hp. induction Hf0 as [|[b x] l Hb0 Hl0 IH]; [constructor|]. cbn [fst] in Hb0. subst b. cbn [map snd].
+      constructor; [exact (Forall_inv Hp)|exact (IH (Forall_inv_tail Hp))]. }
+    exists e, (map snd r). split; [|split; [|split; [|split; [|split]]]].
     - rewrite Hi. cbn [glist]. unfold flat_arg at 1. cbn [fst snd app]. rewrite Hmap at 1. rewrite gtail_bracket. listeq.
     - rewrite Hl. cbn [rev app map]. unfold erase_arg at 1. cbn [fst snd]. f_equal. f_equal. rewrite Hmap at 1. rewrite !map_map. apply map_ext. reflexivity.
     - exact (Forall_inv Hwi).
     - apply Forall_map. exact (Forall_inv_tail Hwi).
+    - exact (Forall_inv Hpi).
+    - apply Hp0; [exact Hr|exact (Forall_inv_tail Hpi)].
   Qed.
 
   Lemma sound_dot f : all_sound f -> P_dot (S f).
@@ -336,10 +348,11 @@ Section Sound.
     intros (Hexpr & Hloop & _ & _ & _ & _ & _ & _ & _ & _ & _ & _ & _ & _ & Hmlist & _). intros bp st t st' H.
     cbn [parse_dot] in H. refold_in H.
     destruct (peek st 0) eqn:Ep; dead;
-      try (apply Hexpr in H as (c & Hc & Hec & Hwc & Hs & _); exists c; split; [exact Hc|split; [exact Hec|split; [exact Hwc|apply Hs; rewrite Ep; reflexivity]]]).
-    adv_in H. rewrite Ep in Ha. specialize (Ha ltac:(discriminate)). run H lst st2 Em. apply Hmlist in Em as (e & es & Hm & Hl & Hwe & Hwes).
-    apply (Hloop bp lst st2 t st' (CMList e es)) in H as (c & w & Hw & Hf & He & Hwc & Hh); [|cbn [erase]; now rewrite Hl|apply wf_mlist; auto].
-    exists c. split; [rewrite Hf, flat_mlist, Ha, Hm, Hw; listeq|]. split; [exact He|]. split; [exact Hwc|]. rewrite Hh. reflexivity.
+      try (apply Hexpr in H as (c & Hc & Hec & Hwc & (Hs & _) & Hpc); exists c; split; [exact Hc|split; [exact Hec|split; [exact Hwc|split; [apply Hs; rewrite Ep; reflexivity|exact Hpc]]]]).
+    adv_in H. rewrite Ep in Ha. specialize (Ha ltac:(discriminate)). run H lst st2 Em. apply Hmlist in Em as (e & es & Hm & Hl & Hwe & Hwes & Hpe & Hpes).
+    apply (Hloop bp lst st2 t st' (CMList e es)) in H as (c & w & Hw & Hf & He & Hwc & Hh & Hpc);
+      [|cbn [erase]; now rewrite Hl|apply wf_mlist; auto|split; [constructor|apply inner_mlist; auto]].
+    exists c. split; [rewrite Hf, flat_mlist, Ha, Hm, Hw; listeq|]. split; [exact He|]. split; [exact Hwc|]. split; [rewrite Hh; reflexivity|exact Hpc].
   Qed.
 
   Lemma sound_prhs f : all_sound f -> P_prhs (S f).
@@ -347,15 +360,15 @@ Section Sound.
     intros (Hexpr & _ & _ & _ & _ & _ & _ & _ & _ & Hdot & _). intros bp st t st' H.
     cbn [projection_rhs] in H. refold_in H.
     destruct (peek st 0) eqn:Ep;
-      try (destruct (L _ <? STOP); dead; injection H as <- <-; exists KNone; split; [reflexivity|split; [reflexivity|exact I]]).
-    - (* dot *) adv_in H. rewrite Ep in Ha. specialize (Ha ltac:(discriminate)). apply Hdot in H as (d & Hd & Hed & Hwd & Hok).
-      exists (KDot d). split; [rewrite Ha, Hd; reflexivity|]. split; [exact Hed|]. split; assumption.
-    - (* filter *) apply Hexpr in H as (x & Hx & Hex & Hwx & _ & Hb). exists (KExpr x). split; [exact Hx|]. split; [exact Hex|]. split; [exact Hwx|].
-      apply Hb. unfold brk_start. now rewrite Ep.
+      try (destruct (L _ <? STOP); dead; injection H as <- <-; exists KNone; split; [reflexivity|split; [reflexivity|split; exact I]]).
+    - (* dot *) adv_in H. rewrite Ep in Ha. specialize (Ha ltac:(discriminate)). apply Hdot in H as (d & Hd & Hed & Hwd & Hok & Hpd).
+      exists (KDot d). split; [rewrite Ha, Hd; reflexivity|]. split; [exact Hed|]. split; [split; assumption|exact Hpd].
+    - (* filter *) apply Hexpr in H as (x & Hx & Hex & Hwx & (_ & Hb) & Hpx). exists (KExpr x). split; [exact Hx|]. split; [exact Hex|]. split; [|exact Hpx].
+      split; [exact Hwx|]. apply Hb. unfold brk_start. now rewrite Ep.
     - (* bracket *)
       destruct (peek st 1) eqn:Ep1; dead; try (destruct (tok_is_rbracket (peek st 2)) eqn:Er2; dead);
-        (apply Hexpr in H as (x & Hx & Hex & Hwx & _ & Hb); exists (KExpr x); split; [exact Hx|]; split; [exact Hex|]; split; [exact Hwx|];
-         apply Hb; unfold brk_start; rewrite Ep, Ep1; try exact Er2; reflexivity).
+        (apply Hexpr in H as (x & Hx & Hex & Hwx & (_ & Hb) & Hpx); exists (KExpr x); split; [exact Hx|]; split; [exact Hex|]; split; [|exact Hpx];
+         split; [exact Hwx|]; apply Hb; unfold brk_start; rewrite Ep, Ep1; try exact Er2; reflexivity).
   Qed.
 
   Lemma sound_index f : all_sound f -> P_index (S f).
@@ -368,12 +381,12 @@ Section Sound.
     destruct (pos' =? 0) eqn:E0.
     - apply Z.eqb_eq in E0. subst pos'. destruct q0 as [i|]; dead. injection H as <- <-. left. exists i.
       split; [rewrite Hw; unfold fin; cbn [Z.eqb optnum app]; reflexivity|reflexivity].
-    - run H rhs st2 Er. apply Hprhs in Er as (k & Hk & Hek & Hwk). injection H as <- <-. right.
+    - run H rhs st2 Er. apply Hprhs in Er as (k & Hk & Hek & Hwk & Hik). injection H as <- <-. right.
       destruct Hinv as [(-> & _)|[(-> & -> & _)|(-> & _)]]; [discriminate| |].
-      + exists (poff st1), (mkSl q0 q1 None), k. split; [|split; [|exact Hwk]].
+      + exists (poff st1), (mkSl q0 q1 None), k. split; [|split; [|split; [exact Hwk|exact Hik]]].
         * rewrite Hw, Hk. unfold fin, slice_toks. cbn [Z.eqb Pos.eqb sl_a sl_b sl_c]. rewrite app_nil_r. listeq.
         * unfold slice_ast. cbn [sl_a sl_b sl_c]. now rewrite Hek.
-      + exists (poff st1), (mkSl q0 q1 (Some q2)), k. split; [|split; [|exact Hwk]].
+      + exists (poff st1), (mkSl q0 q1 (Some q2)), k. split; [|split; [|split; [exact Hwk|exact Hik]]].
         * rewrite Hw, Hk. unfold fin, slice_toks. cbn [Z.eqb Pos.eqb sl_a sl_b sl_c]. listeq.
         * unfold slice_ast. cbn [sl_a sl_b sl_c]. rewrite Hek. destruct q2; reflexivity.
   Qed.
@@ -381,18 +394,22 @@ Section Sound.
   Ltac led_bin o H Ha Hcl Hwl Hexpr cl :=
     let rhs := fresh "rhs" in let st2 := fresh "st2" in let Er := fresh "Er" in let r := fresh "r" in let Hr := fresh "Hr" in let Her := fresh "Her" in
     let Hwr := fresh "Hwr" in
-    run H rhs st2 Er; apply Hexpr in Er as (r & Hr & Her & Hwr & _); injection H as <- <-;
+    let Hpr := fresh "Hpr" in
+    run H rhs st2 Er; apply Hexpr in Er as (r & Hr & Her & Hwr & _ & Hpr); injection H as <- <-;
     exists (CBin o cl r), (binop_tok o :: flat r); split; [rewrite Ha, Hr; listeq|]; split; [reflexivity|];
-    split; [cbn [erase bin_ast]; rewrite Hcl, Her; reflexivity|]; split; [cbn [wf]; auto|reflexivity].
+    split; [cbn [erase bin_ast]; rewrite Hcl, Her; reflexivity|]; split; [cbn [wf]; auto|]; split; [reflexivity|];
+    split; [reflexivity|]; cbn [inner rbp_of]; destruct Hpr; auto.
   Ltac led_cmp c0 H Ha Hcl Hwl Hcmp cl :=
     let r := fresh "r" in let Hr := fresh "Hr" in let Ht := fresh "Ht" in let Hwr := fresh "Hwr" in
-    apply Hcmp in H as (r & Hr & Ht & Hwr);
+    let Hpr := fresh "Hpr" in
+    apply Hcmp in H as (r & Hr & Ht & Hwr & Hpr);
     exists (CBin (BCmp c0) cl r), (binop_tok (BCmp c0) :: flat r); split; [rewrite Ha, Hr; listeq|]; split; [reflexivity|];
-    split; [cbn [erase bin_ast]; rewrite Hcl, Ht; reflexivity|]; split; [cbn [wf]; auto|reflexivity].
+    split; [cbn [erase bin_ast]; rewrite Hcl, Ht; reflexivity|]; split; [cbn [wf]; auto|]; split; [reflexivity|];
+    split; [reflexivity|]; cbn [inner rbp_of]; destruct Hpr; auto.
 
   Lemma sound_led f : all_sound f -> P_led (S f).
   Proof.
-    intros (Hexpr & _ & _ & _ & _ & _ & Hfilter & Hflatten & Hcmp & Hdot & _ & Hwi & Hwv & Hindex & _). intros lft st t st' cl Hcl Hwl H.
+    intros (Hexpr & _ & _ & _ & _ & _ & Hfilter & Hflatten & Hcmp & Hdot & _ & Hwi & Hwv & Hindex & _). intros lft st t st' cl Hcl Hwl Hil H.
     cbn [led] in H. refold_in H. adv_in H. destruct (peek st 0) eqn:Ep; dead; specialize (Ha ltac:(discriminate)).
     all: try match type of Ep with
              | _ = TOr => led_bin BOr H Ha Hcl Hwl Hexpr cl
@@ -407,32 +424,40 @@ Section Sound.
              end.
     - (* dot *)
       destruct (tok_is_star (peek p 0)) eqn:Es.
-      + adv_in H. use_peek. apply Hwv in H as (k & Hk & Ht & Hwk). exists (CDotStar cl k), (TDot :: TStar :: flatk k).
-        split; [rewrite Ha, Ha0, Hk; listeq|]. split; [reflexivity|]. split; [cbn [erase]; now rewrite Hcl, Ht|]. split; [cbn [wf]; auto|reflexivity].
-      + run H rhs st2 Ed. apply Hdot in Ed as (d & Hd & Hed & Hwd & Hok). injection H as <- <-. exists (CDot cl d), (TDot :: flat d).
-        split; [rewrite Ha, Hd; listeq|]. split; [reflexivity|]. split; [cbn [erase]; now rewrite Hcl, Hed|]. split; [cbn [wf]; auto|reflexivity].
+      + adv_in H. use_peek. apply Hwv in H as (k & Hk & Ht & Hwk & Hik). exists (CDotStar cl k), (TDot :: TStar :: flatk k).
+        split; [rewrite Ha, Ha0, Hk; listeq|]. split; [reflexivity|]. split; [cbn [erase]; now rewrite Hcl, Ht|]. split; [cbn [wf]; auto|].
+        split; [reflexivity|]. split; [reflexivity|cbn [inner]; auto].
+      + run H rhs st2 Ed. apply Hdot in Ed as (d & Hd & Hed & Hwd & Hok & Hpd). injection H as <- <-. exists (CDot cl d), (TDot :: flat d).
+        split; [rewrite Ha, Hd; listeq|]. split; [reflexivity|]. split; [cbn [erase]; now rewrite Hcl, Hed|]. split; [cbn [wf]; auto|].
+        split; [reflexivity|]. split; [reflexivity|cbn [inner]; destruct Hpd; auto].
     - (* flatten *)
-      apply Hflatten in H as (k & Hk & Ht & Hwk). exists (CFlatten cl k), (TFlatten :: flatk k).
-      split; [rewrite Ha, Hk; listeq|]. split; [reflexivity|]. split; [cbn [erase]; now rewrite Hcl, Ht|]. split; [cbn [wf]; auto|reflexivity].
+      apply Hflatten in H as (k & Hk & Ht & Hwk & Hik). exists (CFlatten cl k), (TFlatten :: flatk k).
+      split; [rewrite Ha, Hk; listeq|]. split; [reflexivity|]. split; [cbn [erase]; now rewrite Hcl, Ht|]. split; [cbn [wf]; auto|].
+      split; [reflexivity|]. split; [reflexivity|cbn [inner]; auto].
     - (* filter *)
-      apply Hfilter in H as (p0 & k & Hk & Ht & Hwp & Hwk). exists (CFilter cl p0 k), (TFilter :: flat p0 ++ TRbracket :: flatk k).
-      split; [rewrite Ha, Hk; listeq|]. split; [reflexivity|]. split; [cbn [erase]; now rewrite Hcl, Ht|]. split; [cbn [wf]; auto|reflexivity].
+      apply Hfilter in H as (p0 & k & Hk & Ht & Hwp & Hwk & Hpp & Hik). exists (CFilter cl p0 k), (TFilter :: flat p0 ++ TRbracket :: flatk k).
+      split; [rewrite Ha, Hk; listeq|]. split; [reflexivity|]. split; [cbn [erase]; now rewrite Hcl, Ht|]. split; [cbn [wf]; auto|].
+      split; [reflexivity|]. split; [reflexivity|cbn [inner]; destruct Hpp; auto].
     - (* bracket *)
       assert (Hix : forall idx st2, parse_index' f p = Ok (idx, st2) -> Ok (ASubexpr lft idx, st2) = Ok (t, st') ->
-                exists c w, toks st = w ++ toks st' /\ flat c = flat cl ++ w /\ erase c = t /\ wf c /\ head c = head cl).
-      { intros idx st2 Ei E. injection E as <- <-. apply Hindex in Ei as [(n0 & Hn & Ht)|(off & sl & k & Hs & Ht & Hwk)].
+                exists c w, toks st = w ++ toks st' /\ flat c = flat cl ++ w /\ erase c = t /\ wf c /\ head c = head cl /\
+                            spine_ops c = spine_ops cl ++ [TLbracket] /\ inner L c).
+      { intros idx st2 Ei E. injection E as <- <-. apply Hindex in Ei as [(n0 & Hn & Ht)|(off & sl & k & Hs & Ht & Hwk & Hik)].
         - exists (CIndex cl n0), [TLbracket; TNumber n0; TRbracket]. split; [rewrite Ha, Hn; listeq|]. split; [reflexivity|].
-          split; [cbn [erase]; now rewrite Hcl, Ht|]. split; [exact Hwl|reflexivity].
+          split; [cbn [erase]; now rewrite Hcl, Ht|]. split; [exact Hwl|]. split; [reflexivity|]. split; [reflexivity|exact Hil].
         - exists (CSlice cl off sl k), (TLbracket :: slice_toks sl ++ TRbracket :: flatk k). split; [rewrite Ha, Hs; listeq|]. split; [reflexivity|].
-          split; [cbn [erase]; now rewrite Hcl, Ht|]. split; [cbn [wf]; auto|reflexivity]. }
+          split; [cbn [erase]; now rewrite Hcl, Ht|]. split; [cbn [wf]; auto|]. split; [reflexivity|]. split; [reflexivity|cbn [inner]; auto]. }
       destruct (peek p 0) eqn:Ep1; dead.
       + run H idx st2 Ei. exact (Hix _ _ eq_refl H).
-      + adv_in H. use_peek. apply Hwi in H as (k & Hk & Ht & Hwk). exists (CWild cl k), (TLbracket :: TStar :: TRbracket :: flatk k).
-        split; [rewrite Ha, Ha0, Hk; listeq|]. split; [reflexivity|]. split; [cbn [erase]; now rewrite Hcl, Ht|]. split; [cbn [wf]; auto|reflexivity].
+      + adv_in H. use_peek. apply Hwi in H as (k & Hk & Ht & Hwk & Hik). exists (CWild cl k), (TLbracket :: TStar :: TRbracket :: flatk k).
+        split; [rewrite Ha, Ha0, Hk; listeq|]. split; [reflexivity|]. split; [cbn [erase]; now rewrite Hcl, Ht|]. split; [cbn [wf]; auto|].
+        split; [reflexivity|]. split; [reflexivity|cbn [inner]; auto].
       + run H idx st2 Ei. exact (Hix _ _ eq_refl H).
   Qed.
 
   (** [start_ok] for a constituent whose first token is neither a dot-operand start nor a bracket specifier start, or whose head is right anyway *)
+  Ltac nudp := intros ?; split; [constructor|].
+
   Ltac start_tac Ep :=
     unfold start_ok, brk_start; rewrite Ep; cbn [dot_start head dot_ok brk_ok]; split; intros Hs; try reflexivity; try discriminate Hs.
 
@@ -442,53 +467,58 @@ Section Sound.
     cbn [nud] in H. refold_in H. adv_in H. destruct (peek st 0) eqn:Ep; dead; specialize (Ha ltac:(discriminate)).
     - (* identifier, possibly a call *)
       destruct (peek p 0) eqn:Ep1;
-        try (injection H as <- <-; exists (CIdent s); split; [rewrite Ha; reflexivity|split; [reflexivity|split; [exact I|start_tac Ep]]]).
-      adv_in H. use_peek. run H args st3 El. injection H as <- <-. apply Hlist in El as (items & Hi & Hl & _ & _ & _ & Hwi').
-      exists (CCall o0 s items). split; [|split; [|split]].
+        try (injection H as <- <-; exists (CIdent s); split; [rewrite Ha; reflexivity|split; [reflexivity|split; [exact I|split; [start_tac Ep|nudp; exact I]]]]).
+      adv_in H. use_peek. run H args st3 El. injection H as <- <-. apply Hlist in El as (items & Hi & Hl & _ & _ & _ & Hwi' & Hpi').
+      exists (CCall o0 s items). split; [|split; [|split; [|split]]].
       + rewrite flat_call, Ha, Ha0, Hi. destruct items as [|a r]; cbn [glist]; [reflexivity|]. rewrite gtail_paren. listeq.
       + rewrite erase_call, Hl. reflexivity.
       + apply wf_call. exact Hwi'.
       + start_tac Ep.
+      + nudp. apply inner_call. exact Hpi'.
     - (* quoted identifier *)
       destruct (peek p 0) eqn:Ep1; dead;
-        (injection H as <- <-; exists (CQIdent s); split; [rewrite Ha; reflexivity|split; [reflexivity|split; [exact I|start_tac Ep]]]).
+        (injection H as <- <-; exists (CQIdent s); split; [rewrite Ha; reflexivity|split; [reflexivity|split; [exact I|split; [start_tac Ep|nudp; exact I]]]]).
     - (* literal *)
-      injection H as <- <-. exists (CLit v). split; [rewrite Ha; reflexivity|]. split; [reflexivity|]. split; [exact I|start_tac Ep].
+      injection H as <- <-. exists (CLit v). split; [rewrite Ha; reflexivity|]. split; [reflexivity|]. split; [exact I|]. split; [start_tac Ep|nudp; exact I].
     - (* star *)
-      apply Hwv in H as (k & Hk & Ht & Hwk). exists (CStarP k). split; [rewrite Ha, Hk; reflexivity|]. split; [now rewrite Ht|]. split; [exact Hwk|start_tac Ep].
+      apply Hwv in H as (k & Hk & Ht & Hwk & Hik). exists (CStarP k). split; [rewrite Ha, Hk; reflexivity|]. split; [now rewrite Ht|]. split; [exact Hwk|]. split; [start_tac Ep|nudp; exact Hik].
     - (* flatten *)
-      apply Hflatten in H as (k & Hk & Ht & Hwk). exists (CFlattenP k). split; [rewrite Ha, Hk; reflexivity|]. split; [now rewrite Ht|]. split; [exact Hwk|start_tac Ep].
+      apply Hflatten in H as (k & Hk & Ht & Hwk & Hik). exists (CFlattenP k). split; [rewrite Ha, Hk; reflexivity|]. split; [now rewrite Ht|]. split; [exact Hwk|]. split; [start_tac Ep|nudp; exact Hik].
     - (* filter *)
-      apply Hfilter in H as (p0 & k & Hk & Ht & Hwp & Hwk). exists (CFilterP p0 k). split; [rewrite Ha, Hk; listeq|]. split; [now rewrite Ht|].
-      split; [cbn [wf]; auto|start_tac Ep].
+      apply Hfilter in H as (p0 & k & Hk & Ht & Hwp & Hwk & Hpp & Hik). exists (CFilterP p0 k). split; [rewrite Ha, Hk; listeq|]. split; [now rewrite Ht|].
+      split; [cbn [wf]; auto|]. split; [start_tac Ep|nudp; cbn [inner]; destruct Hpp; auto].
     - (* bracket *)
       assert (Hml : brk_start st = false -> parse_multi_list' f p = Ok (t, st') ->
-                    exists c, toks st = flat c ++ toks st' /\ erase c = t /\ wf c /\ start_ok st c).
-      { intros Hb Hm. apply Hmlist in Hm as (e & es & Hm & Ht & Hwe & Hwes). exists (CMList e es).
+                    exists c, toks st = flat c ++ toks st' /\ erase c = t /\ wf c /\ start_ok st c /\ (forall rbp, prec L rbp c)).
+      { intros Hb Hm. apply Hmlist in Hm as (e & es & Hm & Ht & Hwe & Hwes & Hpe & Hpes). exists (CMList e es).
         split; [rewrite flat_mlist, Ha, Hm; listeq|]. split; [now rewrite Ht|]. split; [apply wf_mlist; auto|].
-        unfold start_ok. rewrite Ep, Hb. split; discriminate. }
-      assert (Hix : parse_index' f p = Ok (t, st') -> exists c, toks st = flat c ++ toks st' /\ erase c = t /\ wf c /\ start_ok st c).
-      { intros Hm. apply Hindex in Hm as [(n0 & Hn & Ht)|(off & sl & k & Hs & Ht & Hwk)].
-        - exists (CIndexP n0). split; [rewrite Ha, Hn; reflexivity|]. split; [now rewrite Ht|]. split; [exact I|]. unfold start_ok. rewrite Ep. split; [discriminate|reflexivity].
-        - exists (CSliceP off sl k). split; [rewrite Ha, Hs; listeq|]. split; [now rewrite Ht|]. split; [exact Hwk|]. unfold start_ok. rewrite Ep. split; [discriminate|reflexivity]. }
+        split; [unfold start_ok; rewrite Ep, Hb; split; discriminate|]. nudp. apply inner_mlist. auto. }
+      assert (Hix : parse_index' f p = Ok (t, st') -> exists c, toks st = flat c ++ toks st' /\ erase c = t /\ wf c /\ start_ok st c /\ (forall rbp, prec L rbp c)).
+      { intros Hm. apply Hindex in Hm as [(n0 & Hn & Ht)|(off & sl & k & Hs & Ht & Hwk & Hik)].
+        - exists (CIndexP n0). split; [rewrite Ha, Hn; reflexivity|]. split; [now rewrite Ht|]. split; [exact I|].
+          split; [unfold start_ok; rewrite Ep; split; [discriminate|reflexivity]|nudp; exact I].
+        - exists (CSliceP off sl k). split; [rewrite Ha, Hs; listeq|]. split; [now rewrite Ht|]. split; [exact Hwk|].
+          split; [unfold start_ok; rewrite Ep; split; [discriminate|reflexivity]|nudp; exact Hik]. }
       assert (Hb1 : brk_start st = match peek p 0 with TNumber _ | TColon => true | TStar => tok_is_rbracket (peek p 1) | _ => false end).
       { unfold brk_start. rewrite Ep, <- !Hc by discriminate. reflexivity. }
       destruct (peek p 0) eqn:Ep1; try (exact (Hix H)); try (exact (Hml Hb1 H)).
       destruct (tok_is_rbracket (peek p 1)) eqn:Er1; [|exact (Hml Hb1 H)].
-      adv_in H. use_peek. apply Hwi in H as (k & Hk & Ht & Hwk). exists (CWildP k). split; [rewrite Ha, Ha0, Hk; reflexivity|]. split; [now rewrite Ht|].
-      split; [exact Hwk|]. unfold start_ok. rewrite Ep. split; [discriminate|reflexivity].
+      adv_in H. use_peek. apply Hwi in H as (k & Hk & Ht & Hwk & Hik). exists (CWildP k). split; [rewrite Ha, Ha0, Hk; reflexivity|]. split; [now rewrite Ht|].
+      split; [exact Hwk|]. split; [unfold start_ok; rewrite Ep; split; [discriminate|reflexivity]|nudp; exact Hik].
     - (* not *)
-      run H n st2 Ee. apply Hexpr in Ee as (x & Hx & Hex & Hwx & _). injection H as <- <-. exists (CNot x). split; [rewrite Ha, Hx; reflexivity|].
-      split; [cbn [erase]; now rewrite Hex|]. split; [exact Hwx|start_tac Ep].
+      run H n st2 Ee. apply Hexpr in Ee as (x & Hx & Hex & Hwx & _ & Hpx). injection H as <- <-. exists (CNot x). split; [rewrite Ha, Hx; reflexivity|].
+      split; [cbn [erase]; now rewrite Hex|]. split; [exact Hwx|]. split; [start_tac Ep|nudp; exact Hpx].
     - (* current node *)
-      injection H as <- <-. exists CCurrent. split; [rewrite Ha; reflexivity|]. split; [reflexivity|]. split; [exact I|start_tac Ep].
+      injection H as <- <-. exists CCurrent. split; [rewrite Ha; reflexivity|]. split; [reflexivity|]. split; [exact I|]. split; [start_tac Ep|nudp; exact I].
     - (* parentheses *)
-      run H result st2 Ee. apply Hexpr in Ee as (x & Hx & Hex & Hwx & _). adv_in H. destruct (peek st2 0) eqn:Ep2; dead. use_peek.
-      injection H as <- <-. exists (CParen x). split; [rewrite Ha, Hx, Ha0; cbn [flat]; listeq|]. split; [exact Hex|]. split; [exact Hwx|start_tac Ep].
+      run H result st2 Ee. apply Hexpr in Ee as (x & Hx & Hex & Hwx & _ & Hpx). adv_in H. destruct (peek st2 0) eqn:Ep2; dead. use_peek.
+      injection H as <- <-. exists (CParen x). split; [rewrite Ha, Hx, Ha0; cbn [flat]; listeq|]. split; [exact Hex|]. split; [exact Hwx|].
+      split; [start_tac Ep|nudp; exact Hpx].
     - (* multi-select hash *)
-      apply Hkvps in H as (items & Hne & Hi & Ht & Hwi'). destruct items as [|[[q k] x] r]; [contradiction|].
+      apply Hkvps in H as (items & Hne & Hi & Ht & Hwi' & Hpi'). destruct items as [|[[q k] x] r]; [contradiction|].
       exists (CMHash (q, k, x) r). split; [rewrite flat_mhash, Ha, Hi; cbn [hash_items]; listeq|]. split; [rewrite erase_mhash, Ht; reflexivity|].
-      split; [apply wf_mhash; split; [exact (Forall_inv Hwi')|exact (Forall_inv_tail Hwi')]|start_tac Ep].
+      split; [apply wf_mhash; split; [exact (Forall_inv Hwi')|exact (Forall_inv_tail Hwi')]|]. split; [start_tac Ep|].
+      nudp. apply inner_mhash. split; [exact (Forall_inv Hpi')|exact (Forall_inv_tail Hpi')].
   Qed.
 
   Lemma all_sound_holds : forall f, all_sound f.
@@ -507,12 +537,12 @@ Section Sound.
       the end of input), and the tree it returns is the abstract tree of that syntax tree. *)
   Theorem ref_parser_sound fuel tokens t :
     parse_tokens L STOP true fuel tokens = Ok t ->
-    exists c rest, map snd tokens = flat c ++ rest /\ erase c = t /\ wf c /\ hd TEof rest = TEof.
+    exists c rest, map snd tokens = flat c ++ rest /\ erase c = t /\ wf c /\ prec L 0 c /\ hd TEof rest = TEof.
   Proof.
     unfold parse_tokens. destruct (expr' fuel 0 (mkPst tokens 0)) as [[r st]|?| | |] eqn:E; cbn [bind]; dead.
     destruct (peek st 0) eqn:Ep; dead. intros H. injection H as <-.
-    destruct (all_sound_holds fuel) as (Hexpr & _). apply Hexpr in E as (c & Hc & Hec & Hwc & _).
-    exists c, (toks st). split; [exact Hc|]. split; [exact Hec|]. split; [exact Hwc|].
+    destruct (all_sound_holds fuel) as (Hexpr & _). apply Hexpr in E as (c & Hc & Hec & Hwc & _ & Hpc).
+    exists c, (toks st). split; [exact Hc|]. split; [exact Hec|]. split; [exact Hwc|]. split; [exact Hpc|].
     unfold peek, toks in *. destruct (pq st) as [|[p0 t0] q]; cbn in *; [reflexivity|exact Ep].
   Qed.
 End Sound.
@@ -607,12 +637,13 @@ Qed.
     by the end-of-input token, and the returned tree is that syntax tree's
     abstract tree (offsets included, as annotations). *)
 Theorem ref_parse_sound s t : ref_parse s = Ok t ->
-  exists tokens c, tokenize s = Ok tokens /\ map snd tokens = flat c ++ [TEof] /\ erase c = t /\ wf c.
+  exists tokens c, tokenize s = Ok tokens /\ map snd tokens = flat c ++ [TEof] /\ erase c = t /\ wf c /\
+                   prec (fun tk => Spec.TableSpec.spec_lbp (kind_of tk)) 0 c.
 Proof.
   unfold ref_parse. destruct (tokenize s) as [tokens|?| | |] eqn:Et; cbn [bind]; try discriminate. intros H.
-  apply ref_parser_sound in H as (c & rest & Hc & Hec & Hwc & Hhd).
+  apply ref_parser_sound in H as (c & rest & Hc & Hec & Hwc & Hpc & Hhd).
   apply tokenize_ends in Et as Hends. destruct Hends as (body & p & Hr & Hb).
-  exists tokens, c. split; [reflexivity|]. split; [|split; [exact Hec|exact Hwc]].
+  exists tokens, c. split; [reflexivity|]. split; [|split; [exact Hec|split; [exact Hwc|exact Hpc]]].
   assert (Hbody : ~ In TEof (map snd body)).
   { intros Hin. apply in_map_iff in Hin as ([p0 t0] & E & Hin). rewrite Forall_forall in Hb. apply (Hb _ Hin). exact E. }
   rewrite Hr, map_app in Hc. cbn [map snd] in Hc.
